@@ -18,6 +18,7 @@
 -/
 import LspVerif.Props.Total
 import LspVerif.Props.Unstruct
+import LspVerif.Props.Link
 namespace LspVerif
 
 variable (E : Env) (bad : List PyTy)
@@ -42,5 +43,88 @@ theorem constructor_path (H : List PyTy) (hP : progsOK E bad H = true) (hC : cls
   obtain ⟨v'', m', hm', k', hk'⟩ := T1 E bad H hP hC ty k hty j' v r hr
   obtain ⟨_, ⟨j'', m'', hm'', hn'', _⟩⟩ := T2 E bad hU hk'
   exact ⟨j', m, hm, hn, v'', m', hm', ⟨k', hk'⟩, j'', m'', hm'', hn''⟩
+
+end LspVerif
+
+/-! ### the same, over metamodel-valid values (Props/Link.lean) -/
+
+namespace LspVerif
+
+variable (M : Model) (E : Env) (bad : List PyTy)
+
+/-- what C01 / C03 / C14 conclude about a JSON value at an annotation -/
+def RoundTrips (A : PyTy) (j : Json) : Prop :=
+  ∃ v', (∃ m, structTy E m A j = .ok v') ∧ (∃ k', rep E bad k' A v' j = true) ∧
+    (∃ j' m, unstruct E m (some A) v' = .ok j' ∧ ∃ k, nrel E k A j j' = true) ∧
+    (∃ j' m, unstruct E m Option.none v' = .ok j' ∧ ∃ k, nrel E k A j j' = true)
+
+def rootsLight (H : List PyTy) : Bool := E.pkg.classes.all (fun c => lightOK E bad H 1 (.cls c.name))
+
+/-- the kernel-checked facts about the regenerated metamodel, package and hook programs (one bundle per run) -/
+structure Checked (H : List PyTy) : Prop where
+  progs : progsOK E bad H = true
+  classes : clsesOK E bad H = true
+  classesU : clsesOKU E = true
+  roots : rootsLight E bad H = true
+  structs : structsCover M E bad = true
+  int32 : ∀ i, inInt32 i = true → (E.vld.int32 (.int i)).accepted = true
+  uint31 : ∀ i, inUInt31 i = true → (E.vld.uint31 (.int i)).accepted = true
+
+variable {M E bad}
+
+theorem Checked.light_of_findCls {H : List PyTy} (c : Checked M E bad H) {n : Name} {cl : Cls} (hf : E.pkg.findCls n = some cl) :
+    lightOK E bad H 1 (.cls n) = true := by
+  have hm : cl ∈ E.pkg.classes := List.mem_of_find?_eq_some hf
+  have := List.all_eq_true.mp c.roots cl hm
+  rwa [findCls_name' E hf] at this
+
+theorem Checked.of_reading {H : List PyTy} (c : Checked M E bad H) {A : PyTy} {k : Nat} (hty : lightOK E bad H k A = true)
+    {j : Json} (h : ∃ v n, rep E bad n A v j = true) : RoundTrips E bad A j := by
+  obtain ⟨v, n, hr⟩ := h
+  exact roundtrip E bad H c.progs c.classes c.classesU A k hty j v n hr
+
+/-- **C01 / C03 / C14 for metamodel-valid values.**  `T` a metamodel type, `A` an annotation of the package that covers it. -/
+theorem Checked.roundtrip_ty {H : List PyTy} (c : Checked M E bad H) {T : Ty} {A : PyTy} {n k m : Nat}
+    (hann : annOK M E bad n T A = true) (hty : lightOK E bad H k A = true) {j : Json}
+    (hv : validTyC M m T j = true) (hw : Wf j) : RoundTrips E bad A j := by
+  obtain ⟨v, kk, hr, _⟩ := valid_rep M E bad c.structs c.int32 c.uint31 m n T A j hann hv hw
+  exact c.of_reading hty ⟨v, kk, hr⟩
+
+theorem Checked.roundtrip_struct {H : List PyTy} (c : Checked M E bad H) {s : Struct} (hs : s ∈ M.structures) {j : Json}
+    (hv : validStructC M s j = true) (hw : Wf j) : RoundTrips E bad (.cls s.name) j := by
+  obtain ⟨v, k, hr⟩ := valid_struct_rep M E bad c.structs c.int32 c.uint31 s hs vFuel j hv hw
+  have hsc := List.all_eq_true.mp c.structs s hs
+  simp only [structCovers] at hsc
+  cases hcl : E.pkg.findCls s.name with
+  | none => simp [hcl] at hsc
+  | some cl => exact c.of_reading (c.light_of_findCls hcl) ⟨v, k, hr⟩
+
+theorem Checked.roundtrip_request {H : List PyTy} (c : Checked M E bad H) {r : Request} (hc : requestCovered M E bad r = true) {j : Json}
+    (hv : validRequestC M r j = true) (hw : Wf j) : ∃ e, entryOf E r.method = some e ∧ RoundTrips E bad (.cls e.req) j := by
+  obtain ⟨e, he, v, k, hr⟩ := valid_request_rep M E bad c.structs c.int32 c.uint31 r hc j hv hw
+  refine ⟨e, he, ?_⟩
+  simp only [requestCovered, he] at hc
+  cases hcl : E.pkg.findCls e.req with
+  | none => simp [hcl] at hc
+  | some cl => exact c.of_reading (c.light_of_findCls hcl) ⟨v, k, hr⟩
+
+theorem Checked.roundtrip_response {H : List PyTy} (c : Checked M E bad H) {r : Request} (hc : responseCovered M E bad r = true) {j : Json}
+    (hv : validResponseC M r j = true) (hw : Wf j) :
+    ∃ e rn, entryOf E r.method = some e ∧ e.resp = some rn ∧ RoundTrips E bad (.cls rn) j := by
+  obtain ⟨e, rn, he, hrn, v, k, hr⟩ := valid_response_rep M E bad c.structs c.int32 c.uint31 r hc j hv hw
+  refine ⟨e, rn, he, hrn, ?_⟩
+  simp only [responseCovered, he, hrn] at hc
+  cases hcl : E.pkg.findCls rn with
+  | none => simp [hcl] at hc
+  | some cl => exact c.of_reading (c.light_of_findCls hcl) ⟨v, k, hr⟩
+
+theorem Checked.roundtrip_notification {H : List PyTy} (c : Checked M E bad H) {nt : Notification} (hc : notificationCovered M E bad nt = true) {j : Json}
+    (hv : validNotificationC M nt j = true) (hw : Wf j) : ∃ e, entryOf E nt.method = some e ∧ RoundTrips E bad (.cls e.req) j := by
+  obtain ⟨e, he, v, k, hr⟩ := valid_notification_rep M E bad c.structs c.int32 c.uint31 nt hc j hv hw
+  refine ⟨e, he, ?_⟩
+  simp only [notificationCovered, he] at hc
+  cases hcl : E.pkg.findCls e.req with
+  | none => simp [hcl] at hc
+  | some cl => exact c.of_reading (c.light_of_findCls hcl) ⟨v, k, hr⟩
 
 end LspVerif
